@@ -24,9 +24,13 @@ RULE = ("Operation histories (<=12 steps quick / <=25 thorough) over a pool of 2
         "either side an operator or a scalar, results appended to the pool and reused; plus the exhaustive matrix of single "
         "operations over every (left class, operator, right class) combination. Oracle = independent term-dictionary algebra. "
         "Non-trivial history = >=3 executed operations and an operand reused after taking part in an earlier one; matrix case = "
-        "operation executed (value or documented refusal). MultiformOperator: pairs of Pauli operators on 1-5 qubits (identity "
-        "terms, products that cancel, repeated words) - product, collapse, encodings and do_commute against the symbolic form; "
-        "non-trivial = both operands have >=2 terms. Distinct = distinct canonical JSON of the case.")
+        "operation executed (value or documented refusal). MultiformOperator: pairs of Pauli operators on registers of 1-6, 30-34 and 62-66 qubits "
+        "(sparse words with letters on the lowest / highest qubits or anywhere, identity, words differing on one low or one high qubit only, products "
+        "that cancel) - product, collapse, encodings and do_commute against the width-independent symbolic form; non-trivial = both operands have >=2 "
+        "terms. MultiformOperator histories (<=10/16 steps): in-place +=, -=, *= with MultiformOperator or scalar operands, compress(), _update(), "
+        "remove_terms (int/list/array), array product (optionally continuing the chain with it), do_commute both modes and both orders; whenever the "
+        "class is in sync the integer/binary/binary_swap/factors arrays must encode the current terms row by row; non-trivial = >=3 executed steps and "
+        ">=1 re-synchronisation after in-place arithmetic. Distinct = distinct canonical JSON of the case.")
 ASSUMPTIONS = ["openfermion's plain FermionOperator/QubitOperator containers (term dictionaries) are trusted; refusals that openfermion "
                "itself documents (TypeError for an operand that is not an instance of the left operand's class) are accepted outcomes",
                "reference Pauli table in vlib/refops.py (self-tested against Kronecker-product matrices); fermionic words multiply by concatenation "
@@ -35,6 +39,9 @@ ASSUMPTIONS = ["openfermion's plain FermionOperator/QubitOperator containers (te
                "non-mutation compared exactly",
                "do_commute is held to the symbolic commutator only where term-wise commutation and the operator commutator agree "
                "(a pair of anticommuting words whose contributions cancel in AB-BA is not judged)",
+               "MultiformOperator's array attributes are only required to describe the terms after from_*, compress(), _update(), remove_terms() or `*` "
+               "(in-place symbolic arithmetic inherited from openfermion touches `terms` only, as z2_tapering's use of compress() assumes); remove_terms and "
+               "the array product are exercised only on a synchronised, non-empty operator (an empty operand makes collapse raise ValueError - callers guard it)",
                "mismatched annotations must raise RuntimeError where the code checks them (FermionOperator +,-,*; QubitHamiltonian +); "
                "QubitHamiltonian -,* with a plain QubitOperator may raise openfermion's TypeError"]
 SHARDS = {"quick": 4, "thorough": 16}
@@ -639,7 +646,7 @@ def matrix_cases():
     return out
 
 
-@part("matrix", quick=1, thorough=1, shard=False)
+@part("matrix", quick=1, thorough=1)
 def matrix(ctx):
     def body(case):
         m = run_history(case)
@@ -650,21 +657,55 @@ def matrix(ctx):
 # ------------------------------------------------------------------------------------------------ MultiformOperator
 
 PAULI_INT = {"I": 0, "Z": 1, "X": 2, "Y": 3}
+INT_PAULI = {v: k for k, v in PAULI_INT.items()}
+
+
+def widths(max_small):
+    """Register sizes: small ones, and the neighbourhoods of 32 and 64 qubits (fixed-width integer encodings of Pauli words
+    change behaviour there; the array form is cheap at any width and the reference algebra is width-independent)."""
+    return st.one_of(st.integers(1, max_small), st.integers(1, max_small), st.integers(30, 34), st.integers(62, 66))
 
 
 @st.composite
-def pauli_op(draw, n, max_terms=5):
-    words = draw(st.lists(st.lists(st.sampled_from("IXYZ"), min_size=n, max_size=n).map("".join), min_size=1, max_size=max_terms, unique=True))
+def sparse_word(draw, n):
+    """A Pauli word as a sorted list [[qubit, letter], ...]: few non-identity letters placed on the lowest qubits, on the
+    highest qubits, or anywhere."""
+    region = draw(st.sampled_from(["low", "high", "any", "any"]))
+    pool = list(range(min(n, 3))) if region == "low" else (list(range(max(0, n - 3), n)) if region == "high" else list(range(n)))
+    qs = draw(st.lists(st.sampled_from(pool), unique=True, min_size=0, max_size=min(len(pool), 4 if n > 6 else n)))
+    return [[q, draw(st.sampled_from("XYZ"))] for q in sorted(qs)]
+
+
+def word_variant(draw, w, n):
+    """A word that differs from w on one qubit only, taken from the low end, the high end or anywhere."""
+    region = draw(st.sampled_from(["low", "high", "any"]))
+    q = draw(st.integers(0, min(n, 3) - 1)) if region == "low" else (draw(st.integers(max(0, n - 3), n - 1)) if region == "high" else draw(st.integers(0, n - 1)))
+    d = {a: b for a, b in w}
+    new = draw(st.sampled_from([x for x in "IXYZ" if x != d.get(q, "I")]))
+    if new == "I":
+        d.pop(q, None)
+    else:
+        d[q] = new
+    return [[a, d[a]] for a in sorted(d)]
+
+
+@st.composite
+def pauli_op(draw, n, max_terms=5, min_terms=1, coeff=None):
+    words = draw(st.lists(sparse_word(n), min_size=min_terms, max_size=max_terms, unique_by=lambda w: tuple(map(tuple, w))))
+    for _ in range(draw(st.integers(0, 2)) if max_terms > 1 else 0):
+        v = word_variant(draw, words[draw(st.integers(0, len(words) - 1))], n) if words else None
+        if v is not None and v not in words:
+            words.append(v)
     out = []
     for w in words:
-        re, im = draw(coeffs())
+        re, im = draw(coeff) if coeff is not None else draw(coeffs())
         out.append([w, re, im])
     return out
 
 
 @st.composite
 def multiform_pairs(draw, max_n):
-    n = draw(st.integers(1, max_n))
+    n = draw(widths(max_n))
     kind = draw(st.integers(0, 5))
     A = draw(pauli_op(n))
     if kind == 0:
@@ -677,72 +718,111 @@ def multiform_pairs(draw, max_n):
     return {"n": n, "A": A, "B": B}
 
 
+def word_key(w):
+    """dense string ('XIZ') or sparse list ([[0,'X'],[2,'Z']]) -> openfermion term tuple."""
+    if isinstance(w, str):
+        return tuple((q, p) for q, p in enumerate(w) if p != "I")
+    return tuple((int(q), str(p)) for q, p in sorted(map(tuple, w)))
+
+
 def word_terms(op):
     d = {}
     for w, re, im in op:
-        k = tuple((q, p) for q, p in enumerate(w) if p != "I")
+        k = word_key(w)
         d[k] = d.get(k, 0) + (complex(re, im) if im != 0 else float(re))
     return d
 
 
 def row_to_key(row):
-    inv = {v: k for k, v in PAULI_INT.items()}
-    return tuple((q, inv[int(x)]) for q, x in enumerate(row) if int(x) != 0)
+    return tuple((q, INT_PAULI[int(x)]) for q, x in enumerate(row) if int(x) != 0)
 
 
-def check_encoding(mo, n, what):
-    """integer / binary / factors arrays must describe exactly the term dictionary (row i <-> i-th term)."""
+def width_label(n):
+    return "n<=6" if n <= 6 else ("n=30..32" if n <= 32 else ("n=33..34" if n <= 34 else ("n=62..64" if n <= 64 else "n=65..66")))
+
+
+def check_encoding(mo, n, what, strict=False):
+    """integer / binary / binary_swap / factors arrays must describe exactly the term dictionary (row i <-> i-th term).
+    strict=False tolerates words with |coefficient| < 2e-8 present on one side only (the symbolic container drops them)."""
     terms = list(mo.terms.items())
     rows = len(mo.factors)
     if mo.integer.shape != (rows, n) or mo.binary.shape != (rows, 2 * n) or mo.binary_swap.shape != (rows, 2 * n):
-        raise Fail(f"{what}: array shapes {mo.integer.shape}, {mo.binary.shape}, {rows} factors on {n} qubits", sig=f"multiform:{what}:shape")
+        raise Fail(f"{what}: array shapes integer {mo.integer.shape}, binary {mo.binary.shape}, binary_swap {mo.binary_swap.shape}, {rows} factors on {n} qubits",
+                   sig=f"multiform:{what}:shape")
+    if mo.n_terms != len(terms):
+        raise Fail(f"{what}: n_terms {mo.n_terms} but {len(terms)} terms", sig=f"multiform:{what}:n_terms")
     if [row_to_key(r) for r in mo.integer] != [t for t, _ in terms]:
-        # the symbolic container drops coefficients below 1e-8: rows and dictionary may then differ by such words only
         arr = {}
         for r, f in zip(mo.integer, mo.factors):
             arr[row_to_key(r)] = arr.get(row_to_key(r), 0) + complex(f)
         ok, k = terms_close(arr, dict(terms), tol=2e-8)
-        if not ok:
+        if strict or not ok:
             raise Fail(f"{what}: integer/factors arrays describe {show(arr)} but the term dictionary is {show(dict(terms))}", sig=f"multiform:{what}:arrays-vs-terms")
         return
     for i, (t, c) in enumerate(terms):
-        if row_to_key(mo.integer[i]) != t:
-            raise Fail(f"{what}: integer row {i} = {mo.integer[i].tolist()} does not encode term {t}", sig=f"multiform:{what}:integer")
         x = [int(v) >> 1 for v in mo.integer[i]]
         z = [int(v) & 1 for v in mo.integer[i]]
         if [int(v) for v in mo.binary[i]] != x + z:
-            raise Fail(f"{what}: binary row {i} = {mo.binary[i].astype(int).tolist()} is not (x|z) of {mo.integer[i].tolist()}", sig=f"multiform:{what}:binary")
+            raise Fail(f"{what}: binary row {i} is not (x|z) of the integer row encoding {t}", sig=f"multiform:{what}:binary")
         if [int(v) for v in mo.binary_swap[i]] != z + x:
-            raise Fail(f"{what}: binary_swap row {i} is not (z|x)", sig=f"multiform:{what}:binary_swap")
+            raise Fail(f"{what}: binary_swap row {i} is not (z|x) of the integer row encoding {t}", sig=f"multiform:{what}:binary_swap")
         if abs(complex(mo.factors[i]) - complex(c)) > 1e-12:
             raise Fail(f"{what}: factor {i} = {mo.factors[i]} but term coefficient {c}", sig=f"multiform:{what}:factors")
 
 
+def check_commute(do_commute, A, ta, B, tb, what, labels):
+    """do_commute (both modes) against word-by-word commutation; ta/tb: term dictionaries in the objects' term order."""
+    pair = [[RO.words_commute(t1, t2) for t2 in tb] for t1 in ta]
+    exp_res = [all(r) for r in pair]
+    got_res = do_commute(A, B, term_resolved=True)
+    if [bool(x) for x in got_res] != exp_res:
+        raise Fail(f"{what}: do_commute(term_resolved) = {[bool(x) for x in got_res]}, word-by-word commutation of the current terms gives {exp_res}",
+                   sig="multiform:do_commute:term_resolved")
+    got = do_commute(A, B)
+    prod = RO.qop_mul(ta, tb)
+    comm = RO.qop_add(prod, RO.qop_mul(tb, ta), -1)
+    comm_zero = all(abs(c) <= 1e-9 * scale_of(prod) for c in comm.values())
+    if all(exp_res):
+        labels.add("commuting")
+        if not comm_zero:
+            raise Fail("reference inconsistency: all words commute but AB-BA != 0", sig="oracle")
+        if not bool(got):
+            raise Fail(f"{what}: do_commute(A,B) is False although every word of A commutes with every word of B (AB-BA = 0)", sig="multiform:do_commute:false-negative")
+    elif not comm_zero:
+        labels.add("anticommuting-some" if any(exp_res) else "anticommuting-all")
+        if bool(got):
+            raise Fail(f"{what}: do_commute(A,B) is True although AB-BA = {show(comm)} != 0 (words of A commuting with all of B: {exp_res})",
+                       sig="multiform:do_commute:false-positive")
+    else:
+        labels.add("commutator-cancels-unjudged")
+
+
+def build_multiform(op, n):
+    from tangelo.toolboxes.operators import QubitOperator, MultiformOperator
+    q = QubitOperator()
+    q.terms = word_terms(op)
+    return MultiformOperator.from_qubitop(q, n), q
+
+
 @part("multiform", quick=1500, thorough=60000)
 def multiform(ctx):
-    from tangelo.toolboxes.operators import QubitOperator, MultiformOperator
     from tangelo.toolboxes.operators.multiformoperator import do_commute
-    max_n = 4 if ctx.tier == "quick" else 5
-
-    def build(op, n):
-        q = QubitOperator()
-        q.terms = word_terms(op)
-        return MultiformOperator.from_qubitop(q, n), q
+    max_n = 4 if ctx.tier == "quick" else 6
 
     def body_mul(case):
         n = case["n"]
         ta, tb = word_terms(case["A"]), word_terms(case["B"])
-        A, qa = build(case["A"], n)
-        B, qb = build(case["B"], n)
-        check_encoding(A, n, "from_qubitop")
+        A, qa = build_multiform(case["A"], n)
+        B, qb = build_multiform(case["B"], n)
+        check_encoding(A, n, "from_qubitop", strict=True)
         snapA = (dict(A.terms), A.integer.copy(), A.binary.copy(), np.array(A.factors).copy())
         snapB = (dict(B.terms), B.integer.copy(), B.binary.copy(), np.array(B.factors).copy())
-        labels = set()
+        labels = {width_label(n)}
         exp = RO.qop_mul(ta, tb)
         P = A * B
         ok, k = terms_close(dict(P.terms), exp, tol=1e-9 * scale_of(exp))
         if not ok:
-            raise Fail(f"MultiformOperator product differs from the symbolic product at term {k}: got {P.terms.get(k, 0)}, expected {exp.get(k, 0)}",
+            raise Fail(f"MultiformOperator product on {n} qubits differs from the symbolic product at term {k}: got {P.terms.get(k, 0)}, expected {exp.get(k, 0)}",
                        sig="multiform:mul:value")
         sym = qa * qb
         ok, k = terms_close(dict(sym.terms), exp, tol=1e-9 * scale_of(exp))
@@ -766,31 +846,10 @@ def multiform(ctx):
     def body_commute(case):
         n = case["n"]
         ta, tb = word_terms(case["A"]), word_terms(case["B"])
-        A, _ = build(case["A"], n)
-        B, _ = build(case["B"], n)
-        labels = set()
-        exp = RO.qop_mul(ta, tb)
-        pair = [[RO.words_commute(t1, t2) for t2 in tb] for t1 in ta]
-        exp_res = [all(r) for r in pair]
-        got_res = do_commute(A, B, term_resolved=True)
-        if [bool(x) for x in got_res] != exp_res:
-            raise Fail(f"do_commute(term_resolved) = {[bool(x) for x in got_res]}, word-by-word commutation gives {exp_res}", sig="multiform:do_commute:term_resolved")
-        got = do_commute(A, B)
-        comm = RO.qop_add(RO.qop_mul(ta, tb), RO.qop_mul(tb, ta), -1)
-        comm_zero = all(abs(c) <= 1e-9 * scale_of(exp) for c in comm.values())
-        if all(exp_res):
-            labels.add("commuting")
-            if not comm_zero:
-                raise Fail("reference inconsistency: all words commute but AB-BA != 0", sig="oracle")
-            if not bool(got):
-                raise Fail("do_commute(A,B) is False although every word of A commutes with every word of B (AB-BA = 0)", sig="multiform:do_commute:false-negative")
-        elif not comm_zero:
-            labels.add("anticommuting-some" if any(exp_res) else "anticommuting-all")
-            if bool(got):
-                raise Fail(f"do_commute(A,B) is True although AB-BA = {show(comm)} != 0 (words of A commuting with all of B: {exp_res})",
-                           sig="multiform:do_commute:false-positive")
-        else:
-            labels.add("commutator-cancels-unjudged")
+        A, _ = build_multiform(case["A"], n)
+        B, _ = build_multiform(case["B"], n)
+        labels = {width_label(n)}
+        check_commute(do_commute, A, ta, B, tb, "fresh operands", labels)
         return len(ta) >= 2 and len(tb) >= 2, labels
 
     ctx.search("mul", multiform_pairs(max_n), body_mul, frac=0.5)
@@ -803,8 +862,10 @@ def collapse(ctx):
 
     @st.composite
     def cases(draw):
-        n = draw(st.integers(1, 4))
-        base = draw(st.lists(st.lists(st.integers(0, 3), min_size=n, max_size=n), min_size=1, max_size=5))
+        n = draw(widths(4))
+        base = draw(st.lists(sparse_word(n), min_size=1, max_size=5))
+        for _ in range(draw(st.integers(0, 3))):
+            base.append(word_variant(draw, base[draw(st.integers(0, len(base) - 1))], n))
         rows, fac = [], []
         for r in draw(st.lists(st.sampled_from(base), min_size=1, max_size=10)):
             rows.append(r)
@@ -816,32 +877,227 @@ def collapse(ctx):
             fac[-1] = [-fac[0][0], -fac[0][1]]
         return {"n": n, "rows": rows, "fac": fac}
 
+    def dense(r, n):
+        if r and not isinstance(r[0], (list, tuple)):
+            return [int(x) for x in r]          # older replay files: dense integer rows
+        row = [0] * n
+        for q, p in r:
+            row[q] = PAULI_INT[p]
+        return row
+
     def body(case):
-        rows = np.array(case["rows"], dtype=int)
+        n = case["n"]
+        drows = [dense(r, n) for r in case["rows"]]
+        rows = np.array(drows, dtype=int).reshape(len(drows), n)
         fac = np.array([complex(a, b) for a, b in case["fac"]])
         r0, f0 = rows.copy(), fac.copy()
         exp = {}
-        for r, f in zip(case["rows"], fac):
+        for r, f in zip(drows, fac):
             exp[tuple(r)] = exp.get(tuple(r), 0) + f
         uniq, fs = MultiformOperator.collapse(rows, fac)
         got = {}
-        for r, f in zip(np.asarray(uniq).reshape(-1, case["n"]) if len(fs) else [], fs):
+        for r, f in zip(np.asarray(uniq).reshape(-1, n) if len(fs) else [], fs):
             key = tuple(int(x) for x in r)
             if key in got:
-                raise Fail(f"collapse returned the word {key} twice", sig="multiform:collapse:duplicate")
+                raise Fail(f"collapse returned the word {row_to_key(key)} twice", sig="multiform:collapse:duplicate")
             got[key] = f
         ok, k = terms_close(got, exp, tol=1e-12 * scale_of(exp))
         if not ok:
-            raise Fail(f"collapse: word {k} has factor {got.get(k, 0)}, symbolic merging gives {exp.get(k, 0)}", sig="multiform:collapse:value")
+            raise Fail(f"collapse on {n} qubits: word {row_to_key(k)} has factor {got.get(k, 0)}, symbolic merging gives {exp.get(k, 0)} "
+                       f"({len(got)} words returned, {len([v for v in exp.values() if v != 0])} expected)", sig="multiform:collapse:value")
         if any(f == 0 for f in fs):
             raise Fail("collapse kept a word with factor exactly 0", sig="multiform:collapse:zero-kept")
         if not np.array_equal(rows, r0) or not np.array_equal(fac, f0):
             raise Fail("collapse mutated its input arrays", sig="multiform:collapse:mutated")
-        labels = set()
-        if len(exp) < len(case["rows"]):
+        labels = {width_label(n)}
+        if len(exp) < len(drows):
             labels.add("duplicates")
         if any(abs(v) == 0 for v in exp.values()):
             labels.add("zero-sum")
-        return len(exp) < len(case["rows"]), labels
+        keys = list(exp)
+        for a in range(len(keys)):
+            for b in range(a + 1, len(keys)):
+                diff = [q for q in range(n) if keys[a][q] != keys[b][q]]
+                if diff and max(diff) < 3:
+                    labels.add("words-differ-on-low-qubits-only")
+                if diff and min(diff) >= n - 3:
+                    labels.add("words-differ-on-high-qubits-only")
+        return len(exp) < len(drows), labels
 
     ctx.search("collapse", cases(), body)
+
+
+# ------------------------------------------------------------------------------------------------ MultiformOperator histories
+
+hist_coeff = st.tuples(st.sampled_from([0.5, 1.0, -1.0, 1.5, 2.0, -0.5]), st.sampled_from([0.0, 0.0, 0.0, 0.5, -1.0]))
+hist_scalar = st.sampled_from([[2.0, 0.0], [-1.0, 0.0], [0.5, 0.0], [0.0, 1.0], [0.0, -0.5], [1.0, 1.0], [3.0, 0.0]])
+
+
+@st.composite
+def multiform_histories(draw, max_small, max_ops):
+    n = draw(widths(max_small))
+    start = draw(pauli_op(n, max_terms=4, coeff=hist_coeff))
+    probe = draw(pauli_op(n, max_terms=3, coeff=hist_coeff))
+    # blocks: 1-3 in-place operations, a re-synchronisation, then observations on the synchronised operator
+    names = []
+    while len(names) < max_ops:
+        names += draw(st.lists(st.sampled_from(["iadd", "isub", "imul", "imul", "scale", "addc"]), min_size=1, max_size=3))
+        names.append(draw(st.sampled_from(["compress", "compress", "compress", "compress", "update"])))
+        names += draw(st.lists(st.sampled_from(["commute", "commute", "mul", "remove"]), min_size=0, max_size=3))
+        if draw(st.integers(0, 2)) == 0:
+            break
+    ops = []
+    for o in names[:max_ops]:
+        rec = {"op": o}
+        if o in ("iadd", "isub", "imul", "mul"):
+            kind = draw(st.integers(0, 3))
+            if kind <= 1 and o in ("iadd", "isub"):
+                rec["own"] = draw(st.integers(0, 5))        # a word currently in the operator (taken modulo the term count)
+                rec["c"] = list(draw(hist_coeff))
+            else:
+                rec["arg"] = draw(pauli_op(n, max_terms=1 if (o in ("imul", "mul") and kind <= 2) else 2, coeff=hist_coeff))
+            if o == "mul":
+                rec["keep"] = draw(st.booleans())
+        elif o in ("scale", "addc"):
+            rec["s"] = draw(hist_scalar)
+        elif o == "remove":
+            rec["idx"] = draw(st.lists(st.integers(0, 7), min_size=0, max_size=3))
+            rec["form"] = draw(st.sampled_from(["array", "list", "int"]))
+        ops.append(rec)
+    return {"n": n, "start": start, "probe": probe, "ops": ops}
+
+
+@part("multiform_history", quick=600, thorough=30000)
+def multiform_history(ctx):
+    """Chains of in-place symbolic arithmetic on a MultiformOperator, re-synchronised by compress()/_update()/remove_terms():
+    whenever the class says the array forms are in sync, they must encode the current terms, and do_commute / the array
+    product must answer for the current operator."""
+    from tangelo.toolboxes.operators.multiformoperator import do_commute
+
+    def sval(s):
+        return complex(s[0], s[1]) if s[1] != 0 else float(s[0])
+
+    def body(case):
+        n = case["n"]
+        M, _ = build_multiform(case["start"], n)
+        model = dict(word_terms(case["start"]))
+        probe, _ = build_multiform(case["probe"], n)
+        tp = dict(probe.terms)
+        labels = {width_label(n)}
+        synced, executed, stale_then_sync = True, 0, 0
+        dirty_kind = set()
+
+        def check_sync(what):
+            ok, k = terms_close(dict(M.terms), model, tol=1e-9 * scale_of(model))
+            if not ok:
+                raise Fail(f"{what}: terms {show(dict(M.terms))} differ from the symbolic model {show(model)} at {k}", sig="multiform:history:terms")
+            if M.n_qubits != n:
+                raise Fail(f"{what}: n_qubits became {M.n_qubits} (register {n})", sig="multiform:history:n_qubits")
+            check_encoding(M, n, "history", strict=True)
+
+        check_sync("from_qubitop")
+        for i, rec in enumerate(case["ops"]):
+            o = rec["op"]
+            what = f"step {i} {o}"
+            if o in ("iadd", "isub", "imul", "mul"):
+                if "own" in rec:
+                    keys = list(M.terms)
+                    if not keys:
+                        continue
+                    k = keys[rec["own"] % len(keys)]
+                    arg_terms = {k: (M.terms[k] if rec["own"] % 2 == 0 else sval(rec["c"]))}
+                else:
+                    arg_terms = word_terms(rec["arg"])
+                if not arg_terms:
+                    continue
+                from tangelo.toolboxes.operators import QubitOperator, MultiformOperator
+                q = QubitOperator()
+                q.terms = dict(arg_terms)
+                other = MultiformOperator.from_qubitop(q, n)
+            if o == "iadd":
+                M += other
+                model = RO.qop_add(model, arg_terms, 1)
+                synced = False
+                dirty_kind.add("+=")
+            elif o == "isub":
+                M -= other
+                model = RO.qop_add(model, arg_terms, -1)
+                synced = False
+                dirty_kind.add("-=")
+            elif o == "imul":
+                if len(model) * len(arg_terms) > 40:
+                    continue
+                M *= other
+                model = RO.qop_mul(model, arg_terms)
+                synced = False
+                dirty_kind.add("*=word" if len(arg_terms) == 1 else "*=op")
+            elif o == "scale":
+                M *= sval(rec["s"])
+                model = m_scale(model, sval(rec["s"]))
+                synced = False
+                dirty_kind.add("*=scalar")
+            elif o == "addc":
+                M += sval(rec["s"])
+                model = m_add(model, {(): sval(rec["s"])})
+                synced = False
+                dirty_kind.add("+=scalar")
+            elif o in ("compress", "update"):
+                before = len(M.integer)
+                if o == "compress":
+                    M.compress(n_qubits=n)
+                    model = {t: c for t, c in model.items() if abs(c) > 1e-8}
+                else:
+                    M._update(n_qubits=n)
+                if not synced:
+                    stale_then_sync += 1
+                    labels.add("resync-after:" + "+".join(sorted(dirty_kind)))
+                    if len(M.terms) == before:
+                        labels.add("resync-with-unchanged-term-count")
+                dirty_kind.clear()
+                synced = True
+                check_sync(what)
+            elif o == "remove":
+                # remove_terms works on the arrays: only meaningful when they are in sync and hold no negligible coefficient
+                if not synced or not M.terms or any(abs(c) <= 1e-6 for c in model.values()) or len(model) != len(M.terms):
+                    continue
+                keys = list(M.terms)
+                idx = sorted({j % len(keys) for j in rec["idx"]})
+                if rec["form"] == "int":
+                    idx = idx[:1]
+                    if not idx:
+                        continue
+                    M.remove_terms(int(idx[0]))
+                else:
+                    M.remove_terms(np.array(idx, dtype=int) if rec["form"] == "array" else list(idx))
+                for j in idx:
+                    model.pop(keys[j], None)
+                labels.add("remove_terms:" + rec["form"])
+                check_sync(what)
+            elif o == "mul":
+                if not synced or not M.terms or len(model) * len(arg_terms) > 40:
+                    continue
+                P = M * other
+                exp = RO.qop_mul(model, arg_terms)
+                ok, k = terms_close(dict(P.terms), exp, tol=1e-9 * scale_of(exp))
+                if not ok:
+                    raise Fail(f"{what}: array product after the history differs from the symbolic product at {k}: got {P.terms.get(k, 0)}, expected {exp.get(k, 0)}",
+                               sig="multiform:history:mul")
+                check_encoding(P, n, "history-mul")
+                labels.add("array-product")
+                if rec.get("keep"):
+                    M, model = P, {t: c for t, c in exp.items() if abs(c) > 1e-9 * scale_of(exp)}
+                    check_sync(what)
+            elif o == "commute":
+                if not synced:
+                    continue
+                ta = {t: model.get(t, 0) for t in M.terms}
+                check_commute(do_commute, M, ta, probe, tp, what, labels)
+                check_commute(do_commute, probe, tp, M, ta, what + " (probe first)", labels)
+                labels.add("commute-checked")
+            executed += 1
+            labels.add("op:" + o)
+        if not M.terms:
+            labels.add("ends-empty")
+        return executed >= 3 and stale_then_sync >= 1, labels
+
+    ctx.search("multiform_history", multiform_histories(4 if ctx.tier == "quick" else 6, 10 if ctx.tier == "quick" else 16), body)
